@@ -108,7 +108,11 @@ Faults13 == {[s |-> "{{ zz }}", rt |-> TRUE, k |-> "undefined-identifier", dl |-
              [s |-> "{{ (1\n}}", rt |-> FALSE, k |-> "unexpected-token", dl |-> 1],
              [s |-> "@each(x\n\non ob)", rt |-> FALSE, k |-> "unexpected-token", dl |-> 2],
              [s |-> "{{ 1 +\n\n\n}}", rt |-> FALSE, k |-> "unexpected-token", dl |-> 3],
-             [s |-> "{{ ob\n.\nnope }}", rt |-> TRUE, k |-> "unknown-property", dl |-> 1]}
+             [s |-> "{{ ob\n.\nnope }}", rt |-> TRUE, k |-> "unknown-property", dl |-> 1],
+             \* a faulty call whose argument list spans several lines: the construct is the function's name
+             [s |-> "{{ \"s\".nope(1,\n2\n) }}", rt |-> TRUE, k |-> "unknown-function", dl |-> 0],
+             [s |-> "{{ \"s\"\n.nope(\n1\n) }}", rt |-> TRUE, k |-> "unknown-function", dl |-> 1],
+             [s |-> "{{ 5.nope(\n\n) }}", rt |-> TRUE, k |-> "unknown-function", dl |-> 0]}
 Sum(ss) == LET RECURSIVE S(_) S(x) == IF x = <<>> THEN 0 ELSE x[1].nl + S(Tail(x)) IN S(ss)
 Texts(ss) == LET RECURSIVE S(_) S(x) == IF x = <<>> THEN "" ELSE x[1].s \o S(Tail(x)) IN S(ss)
 \* placement contexts: [src, line]
